@@ -204,9 +204,14 @@ pub fn run(tier: Tier) -> i32 {
     rep.rule("M2: every schedule with <= d deviations on data AND ack packets (drop/dup/delay1/delay2/dup-late, batch reversal) over 5 ticks per scenario + tail; oracle after every library call: a message that left the sender's unacknowledged set (hook) / whose bytes are back in channel_available_memory had every packet needed to rebuild it handed to the peer's process_packet; every emitted ack packet only covers sequence numbers handed to that endpoint");
     rep.assume("release is observed through the read-only snapshot hook and cross-checked against the public channel_available_memory");
     let sc = scenarios(tier);
-    run_link_scenarios(&mut rep, "m2", &sc, tier.pick(2, 3), tier.pick(120.0, 1500.0));
+    run_link_scenarios(&mut rep, "m2", &sc, tier.pick(3, 4), tier.pick(120.0, 3000.0));
     if rep.machinery.is_none() {
         super::ackworld::run_c08(&mut rep, tier);
+    }
+    if rep.machinery.is_none() {
+        rep.rule("M1 (API soup): every interleaving up to depth D of send / update / flush / deliver / drop / duplicate / receive with <= 3 packets in flight per direction (ordered and unordered channel); release oracle after every call");
+        super::soup::run_soup(&mut rep, tier, "soup-ordered", Kind::Ordered, super::soup::O_RELEASE, &["C08/"]);
+        super::soup::run_soup(&mut rep, tier, "soup-unordered", Kind::Unordered, super::soup::O_RELEASE, &["C08/"]);
     }
     rep.finish()
 }
@@ -217,6 +222,13 @@ pub fn replay(j: &J) -> i32 {
         _ => Tier::Quick,
     };
     if j.get("kind").and_then(|k| k.as_str()) == Some("trace") {
+        let part = j.get("part").and_then(|p| p.as_str()).unwrap_or("");
+        if part.starts_with("soup-ordered") {
+            return super::soup::replay_soup(j, Kind::Ordered, super::soup::O_RELEASE);
+        }
+        if part.starts_with("soup-unordered") {
+            return super::soup::replay_soup(j, Kind::Unordered, super::soup::O_RELEASE);
+        }
         return super::ackworld::replay(j);
     }
     replay_link(&scenarios(tier), j)
